@@ -27,6 +27,16 @@
 (*                 (Stop) and nothing else is queued, the writer flushes   *)
 (*                 the requests it encoded before; the pinned code jumps   *)
 (*                 back to the select and leaves them in the write buffer  *)
+(*                                                                         *)
+(* Requests redirected by -ASK (constant Asking) carry the asking mark:    *)
+(* the writer encodes ASKING in front of them and hands a placeholder for  *)
+(* the +OK to the processing queue in a select of its own (the ASKING      *)
+(* hand-over, upstream.go loopWrite `if req.asking`).  The request in hand  *)
+(* is then in neither queue:                                               *)
+(*   AskAnswersInHand - TRUE (the code): when quit wins the ASKING         *)
+(*                 hand-over the writer answers the request in hand;       *)
+(*                 FALSE (anti-vacuity): it answers the placeholder, which *)
+(*                 nobody waits for, and the request is lost               *)
 (***************************************************************************)
 EXTENDS Naturals, Sequences, FiniteSets, TLC
 
@@ -34,6 +44,11 @@ CONSTANTS Reqs,        \* request identities
           QCap,        \* capacity of pendingReqs / processingReqs (code: 1024)
           FixHandoff, FixSend, FixReader,
           Banned,      \* requests the filter chain answers itself (commands disabled in compress mode)
+          Asking,      \* requests that arrive with the asking mark (redirected here by -ASK)
+          AskAnswersInHand, \* the writer answers the request in hand when quit wins the ASKING hand-over
+          BufCap,      \* complete requests the write buffer holds before it flushes by itself (code: 4096 bytes, i.e.
+                       \* fewer than 300 requests against 1024 queue entries; a faithful scaling keeps BufCap < QCap,
+                       \* otherwise a full processing queue could consist of unflushed requests only)
           FixFlushOnStop, \* the writer flushes what it has buffered when a filter answered the last queued request
           MaxResets,   \* how many times the environment may break the connection (0/1)
           WithStop,    \* whether a stopper calls client.Stop
@@ -41,6 +56,11 @@ CONSTANTS Reqs,        \* request identities
                        \* connection does (used when behaviours are replayed on the code)
 
 NoReq == "none"
+
+\* the placeholder the writer puts into the processing queue for the +OK of ASKING
+AskMark(r) == "ask_" \o r
+Marks == {AskMark(r) : r \in Asking}
+Items == Reqs \cup Marks
 
 VARIABLES
   pend, proc,        \* pendingReqs, processingReqs (FIFO channels)
@@ -65,9 +85,10 @@ vars == <<pend, proc, quit, done, stopped, connOpen, w, wreq, rd, rreq, wbuf, wi
           main, mdr, spc, sdr, stp, compl, res, resets>>
 
 TypeOK ==
-  /\ pend \in Seq(Reqs) /\ proc \in Seq(Reqs) /\ Len(pend) <= QCap /\ Len(proc) <= QCap
+  /\ pend \in Seq(Reqs) /\ proc \in Seq(Items) /\ Len(pend) <= QCap /\ Len(proc) <= QCap
+  /\ Len(wbuf) <= BufCap
   /\ quit \in BOOLEAN /\ done \in BOOLEAN /\ stopped \in BOOLEAN /\ connOpen \in BOOLEAN
-  /\ w \in {"select", "have", "handoff", "exited"}
+  /\ w \in {"select", "have", "asked", "handoff", "exited"}
   /\ rd \in {"decode", "decoded", "paired", "exited"}
   /\ main \in {"run", "readDone", "quitClosed", "writeDone", "drained", "done"}
   /\ stp \in {"idle", "stop", "wait", "waitDone", "ret"}
@@ -87,6 +108,10 @@ Init ==
 Complete(r, how) ==
   /\ compl' = [compl EXCEPT ![r] = @ + 1]
   /\ res' = [res EXCEPT ![r] = how]
+
+\* an entry of the processing queue is answered: nobody waits for the placeholder of ASKING
+CompleteItem(x, how) ==
+  IF x \in Reqs THEN Complete(x, how) ELSE UNCHANGED <<compl, res>>
 
 -----------------------------------------------------------------------------
 (* Environment: a caller hands request r to client.Send                    *)
@@ -142,7 +167,7 @@ SendDrainTake(r) ==
 (* point client.drain.pending / .processing in a sender: answer it          *)
 SendDrainAnswer(r) ==
   /\ spc[r] = "selfdrain" /\ sdr[r] # NoReq
-  /\ Complete(sdr[r], "err") /\ sdr' = [sdr EXCEPT ![r] = NoReq]
+  /\ CompleteItem(sdr[r], "err") /\ sdr' = [sdr EXCEPT ![r] = NoReq]
   /\ UNCHANGED <<pend, proc, quit, done, stopped, connOpen, w, wreq, rd, rreq, wbuf, wire, replies,
                  main, mdr, spc, stp, resets>>
 
@@ -168,16 +193,46 @@ WriterFiltered ==
        ELSE /\ w' = "select" /\ UNCHANGED <<wire, wbuf>>
   /\ UNCHANGED <<pend, proc, quit, done, stopped, connOpen, rd, rreq, replies, main, mdr, spc, sdr, stp, resets>>
 
+(* point client.loopWrite.got, request with the asking mark: ASKING is encoded into the write buffer  *)
+(* and its placeholder handed to the processing queue, select {quit -> answer the request in hand,     *)
+(* return | processing <- placeholder}; the writer then parks at client.loopWrite.asked.  There is no  *)
+(* pause point between the encode and the select, so this is one action; it is disabled while the      *)
+(* writer is blocked in the select (queue full, quit not closed).                                      *)
+WriterAsk ==
+  /\ w = "have" /\ wreq \in Asking /\ wreq \notin Banned
+  /\ \/ /\ Len(wbuf) >= BufCap /\ ~connOpen      \* ASKING does not fit, the flush of the full buffer fails (FAIL label)
+        /\ Complete(wreq, "err") /\ w' = "exited" /\ wreq' = NoReq /\ wbuf' = <<>>
+        /\ UNCHANGED <<proc, wire, connOpen>>
+     \/ /\ Len(wbuf) < BufCap \/ connOpen \/ ~Det
+        /\ quit /\ w' = "exited" /\ connOpen' = FALSE
+        /\ IF AskAnswersInHand THEN Complete(wreq, "err") ELSE UNCHANGED <<compl, res>>
+        /\ wreq' = NoReq /\ UNCHANGED <<proc, wbuf, wire>>
+     \/ /\ Len(proc) < QCap /\ proc' = Append(proc, AskMark(wreq)) /\ w' = "asked"
+        /\ \/ /\ Len(wbuf) < BufCap /\ wbuf' = Append(wbuf, AskMark(wreq)) /\ UNCHANGED wire
+           \/ /\ Len(wbuf) >= BufCap /\ connOpen /\ wire' = wire \o wbuf /\ wbuf' = <<AskMark(wreq)>>
+           \/ /\ Len(wbuf) >= BufCap /\ ~connOpen /\ ~Det /\ wbuf' = <<AskMark(wreq)>> /\ UNCHANGED wire
+        /\ UNCHANGED <<connOpen, compl, res, wreq>>
+  /\ UNCHANGED <<pend, quit, done, stopped, rd, rreq, replies, main, mdr, spc, sdr, stp, resets>>
+
 (* point client.loopWrite.got: filter chain, encode into the write buffer,  *)
 (* flush only when pendingReqs is empty (upstream.go:635-639).  A flush on  *)
 (* a broken connection fails: the request in hand is answered, the writer   *)
 (* exits (FAIL label).  Without Det a write on a broken connection may also *)
 (* be swallowed by the kernel without an error.                             *)
 WriterEncode ==
-  /\ w = "have" /\ wreq \notin Banned
-  /\ \/ /\ pend # <<>>                       \* no flush
+  /\ \/ w = "have" /\ wreq \notin Banned /\ wreq \notin Asking
+     \/ w = "asked"                          \* point client.loopWrite.asked
+  /\ \/ /\ pend # <<>> /\ Len(wbuf) < BufCap   \* no flush
         /\ wbuf' = Append(wbuf, wreq) /\ w' = "handoff"
         /\ UNCHANGED <<wire, compl, res, wreq>>
+     \/ /\ pend # <<>> /\ Len(wbuf) >= BufCap /\ connOpen   \* the buffer is full: it flushes by itself, the request stays in it
+        /\ wire' = wire \o wbuf /\ wbuf' = <<wreq>> /\ w' = "handoff"
+        /\ UNCHANGED <<compl, res, wreq>>
+     \/ /\ pend # <<>> /\ Len(wbuf) >= BufCap /\ ~connOpen /\ ~Det
+        /\ wbuf' = <<wreq>> /\ w' = "handoff" /\ UNCHANGED <<wire, compl, res, wreq>>
+     \/ /\ pend # <<>> /\ Len(wbuf) >= BufCap /\ ~connOpen   \* that flush fails
+        /\ Complete(wreq, "err") /\ w' = "exited" /\ wreq' = NoReq /\ wbuf' = <<>>
+        /\ UNCHANGED wire
      \/ /\ pend = <<>> /\ connOpen           \* flush
         /\ wire' = wire \o Append(wbuf, wreq) /\ wbuf' = <<>> /\ w' = "handoff"
         /\ UNCHANGED <<compl, res, wreq>>
@@ -236,7 +291,7 @@ ReaderPair ==
 (* point client.loopRead.paired: handleResp -> SetResponse                  *)
 ReaderHandle ==
   /\ rd = "paired"
-  /\ Complete(rreq, "ok") /\ rreq' = NoReq /\ rd' = "decode"
+  /\ CompleteItem(rreq, "ok") /\ rreq' = NoReq /\ rd' = "decode"
   /\ UNCHANGED <<pend, proc, quit, done, stopped, connOpen, w, wreq, wbuf, wire, replies, main, mdr, spc,
                  sdr, stp, resets>>
 
@@ -267,7 +322,7 @@ MainDrainTake ==
 
 MainDrainAnswer ==
   /\ main = "writeDone" /\ mdr # NoReq
-  /\ Complete(mdr, "err") /\ mdr' = NoReq
+  /\ CompleteItem(mdr, "err") /\ mdr' = NoReq
   /\ UNCHANGED <<pend, proc, quit, done, stopped, connOpen, w, wreq, rd, rreq, wbuf, wire, replies, main,
                  spc, sdr, stp, resets>>
 
@@ -304,7 +359,7 @@ StopReturn ==
 
 -----------------------------------------------------------------------------
 SenderNext(r) == SendCheck(r) \/ SendEnqueue(r) \/ SendRecheck(r) \/ SendDrainTake(r) \/ SendDrainAnswer(r)
-WriterNext == WriterSelect \/ WriterFiltered \/ WriterEncode \/ WriterHandoff
+WriterNext == WriterSelect \/ WriterFiltered \/ WriterAsk \/ WriterEncode \/ WriterHandoff
 ReaderNext == ReaderDecode \/ ReaderPair \/ ReaderHandle
 MainNext == MainAfterRead \/ MainWaitWrite \/ MainDrainTake \/ MainDrainAnswer \/ MainDone
 StopNext == StopQuit \/ StopClose \/ StopReturn
@@ -349,9 +404,15 @@ W_EnqueueAfterDrain == \E r \in Reqs : spc[r] = "checked" /\ main \in {"drained"
 W_WriterHandoffQuit == w = "handoff" /\ quit
 W_ReaderWaitsForHandoff == rd = "decoded" /\ proc = <<>> /\ w = "exited"
 W_SenderBlockedOnDeadQueue == \E r \in Reqs : spc[r] = "checked" /\ Len(pend) = QCap /\ w = "exited"
+W_AskHandoffQuit == w = "have" /\ wreq \in Asking /\ quit
+W_AskHandoffBlocked == w = "have" /\ wreq \in Asking /\ Len(proc) = QCap /\ ~quit
+W_ReaderHoldsReplyAtQuit == rd = "decoded" /\ proc = <<>> /\ quit
 NotW1 == ~W_CheckedThenQuit
 NotW2 == ~W_EnqueueAfterDrain
 NotW3 == ~W_WriterHandoffQuit
 NotW4 == ~W_ReaderWaitsForHandoff
 NotW5 == ~W_SenderBlockedOnDeadQueue
+NotW6 == ~W_AskHandoffQuit
+NotW7 == ~W_AskHandoffBlocked
+NotW8 == ~W_ReaderHoldsReplyAtQuit
 =============================================================================
